@@ -14,6 +14,7 @@ import os
 import posixpath
 import pwd
 import re
+import socket
 import subprocess
 import sys
 
@@ -72,6 +73,9 @@ class World:
         self.root = root
         self.main = os.path.join(root, 'config')
         self.inc_a = os.path.join(root, 'incA')
+        self.second = os.path.join(root, 'config2')
+        self.both = os.path.join(root, 'config_both')
+        self.x = ''
         self.globdir = os.path.join(root, 'g')
         self.base = os.path.join(root, 'base')
         os.makedirs(self.globdir, exist_ok=True)
@@ -80,11 +84,13 @@ class World:
         self._content = {}
         self._glob_reversed = None
 
-    def write(self, menu, main, a, b):
-        key = (tuple(main), tuple(a), tuple(b))
+    def write(self, menu, main, a, b, x=''):
+        """x = 'list' / 'chain': b is a second configuration file."""
+        key = (tuple(main), tuple(a), tuple(b), x)
         if key == self.current:
             return
         self.current = key
+        self.x = x
 
         def body(idx):
             out = []
@@ -98,6 +104,14 @@ class World:
         self._put(self.inc_a, ta)
         self._put(os.path.join(self.globdir, 'a.conf'), ta)
         self._put(os.path.join(self.globdir, 'b.conf'), tb)
+        self._put(self.second, tb if x else '')
+        if x:
+            # for ssh -G: the rule reads the second file as if it followed
+            # the first one
+            self._put(self.both, f'Include {self.main}\nInclude {self.second}\n')
+
+    def paths(self):
+        return [self.main, self.second] if self.x == 'list' else [self.main]
 
     def _put(self, path, text):
         """(Re)write a file only when its content changes."""
@@ -118,6 +132,10 @@ class World:
         for name, p in (('config', self.main), ('incA / g/a.conf', self.inc_a),
                         ('g/b.conf', os.path.join(self.globdir, 'b.conf'))):
             t = self._content.get(p, '')
+            if name == 'g/b.conf' and self.x:
+                name = {'list': 'second config file (config=[config, this])',
+                        'chain': 'config of an options object chained on '
+                                 'the one built from config'}[self.x]
             if t or name == 'config':
                 out[name] = t.splitlines()
         return out
@@ -136,26 +154,98 @@ class World:
 # client side
 # --------------------------------------------------------------------------
 
+TYPED = ('ProxyJump', 'HostKeyAlias', 'BindAddress', 'IdentityAgent', 'Ciphers',
+         'KexAlgorithms', 'Compression', 'PasswordAuthentication',
+         'ForwardAgent', 'AddressFamily', 'RequestTTY', 'CanonicalizeHostname',
+         'ConnectTimeout', 'ServerAliveInterval', 'ServerAliveCountMax',
+         'RekeyLimit', 'SetEnv', 'GlobalKnownHostsFile', 'CertificateFile',
+         'PermitTTY', 'LoginGraceTime', 'MACs', 'HostKey')
+_FAMILY = {socket.AF_UNSPEC: 'any', socket.AF_INET: 'inet',
+           socket.AF_INET6: 'inet6'}
+
+
+def canon(name, v):
+    """A stored option value in the vocabulary of the specification."""
+    if name == 'AddressFamily':
+        return ['e', _FAMILY.get(v, str(v))]
+    if isinstance(v, bool):
+        return ['b', '1' if v else '0']
+    if isinstance(v, int):
+        return ['i', str(v)]
+    if isinstance(v, str):
+        return ['s', v]
+    if isinstance(v, list):
+        return ['l'] + [str(x) for x in v]
+    if isinstance(v, tuple):
+        return ['r'] + ['()' if x == () else str(x) for x in v]
+    return ['?', repr(v)]
+
+
+def typed_out(cfg):
+    """Typed options that have a value (an option set to "none" has none)."""
+    out = {}
+    for name in TYPED:
+        v = cfg.get(name)
+        if v is not None:
+            out[name] = canon(name, v)
+    return out
+
+
+def _ukh(cfg):
+    ukh = cfg.get('UserKnownHostsFile')
+    return ['-'] if ukh is None else (list(ukh) or ['@EMPTY@'])
+
+
 def _cfg_out(cfg, host):
     port = cfg.get('Port')
-    ukh = cfg.get('UserKnownHostsFile')
     return [str(cfg.get('Hostname', host)), str(22 if port is None else port),
             str(cfg.get('User') or LOCAL_USER),
             list(cfg.get('IdentityFile', []) or []),
             list(cfg.get('SendEnv', []) or []),
-            ['-'] if ukh is None else list(ukh),
-            cfg.get('Tag') or '']
+            _ukh(cfg), cfg.get('Tag') or '', typed_out(cfg)]
 
 
 def cli_first(world, target):
-    """First pass alone: what SSHClientConfig.load returns."""
+    """First pass alone: what SSHClientConfig.load returns (for a chain: the
+    configuration of the derived options object)."""
     host, user, mode = target
     try:
-        c1 = SSHClientConfig.load(None, [world.main], False, False, False,
+        if world.x == 'chain':
+            return _cfg_out(chain(world, target)[1].config, host)
+        c1 = SSHClientConfig.load(None, world.paths(), False, False, False,
                                   LOCAL_USER, user if user else (), host, ())
         return _cfg_out(c1, host)
     except Exception as exc:            # pylint: disable=broad-except
         return ('exc', type(exc).__name__, str(exc)[:160])
+
+
+def chain(world, target):
+    """An options object built from the first file, and one derived from it
+    with the second file."""
+    host, user, mode = target
+    kw = dict(host=host, client_keys=None, known_hosts=None)
+    if user:
+        kw['username'] = user
+    base = asyncssh.SSHClientConnectionOptions(config=[world.main], **kw)
+    child = asyncssh.SSHClientConnectionOptions(options=base,
+                                                config=[world.second], **kw)
+    return base, child
+
+
+def chain_parent_changed(world, target):
+    """Deriving an options object must leave the parent as it was: returns
+    None, or (parent before, parent after)."""
+    host = target[0]
+    try:
+        alone = asyncssh.SSHClientConnectionOptions(
+            config=[world.main], host=host, client_keys=None,
+            known_hosts=None, **({'username': target[1]} if target[1] else {}))
+        before = _cfg_out(alone.config, host)
+        base, _child = chain(world, target)
+        after = _cfg_out(base.config, host)
+    except Exception:                   # pylint: disable=broad-except
+        return None
+    return None if before == after else (before, after)
 
 
 class _Refused(OSError):
@@ -191,9 +281,17 @@ class Connector:
 
     def resolve(self, world, target):
         host, user, mode = target
-        kw = dict(config=[world.main], client_keys=None, known_hosts=None)
+        kw = dict(config=world.paths(), client_keys=None, known_hosts=None)
         if user:
             kw['username'] = user
+        if world.x == 'chain':
+            try:
+                kw['options'] = asyncssh.SSHClientConnectionOptions(
+                    config=[world.main], host=host, client_keys=None,
+                    known_hosts=None, **({'username': user} if user else {}))
+            except Exception as exc:    # pylint: disable=broad-except
+                return ('exc', type(exc).__name__, str(exc)[:160])
+            kw['config'] = [world.second]
         if mode == 'canon':
             kw.update(canonicalize_hostname=True, canonical_domains=['c'])
         self.conn = None
@@ -210,17 +308,21 @@ class Connector:
         o = self.conn._options          # pylint: disable=protected-access
         self.conn = None
         c = o.config
-        ukh = c.get('UserKnownHostsFile')
         return [str(o.host), str(o.port), str(o.username),
                 list(c.get('IdentityFile', []) or []),
                 list(c.get('SendEnv', []) or []),
-                ['-'] if ukh is None else list(ukh), c.get('Tag') or '']
+                _ukh(c), c.get('Tag') or '', typed_out(c)]
+
+
+def pred_typed(t):
+    return {n: list(den) for n, den in t if list(den) != ['none']}
 
 
 def pred_out(pred):
-    host, port, user, idf, env, ukh, tag = pred
+    host, port, user, idf, env, ukh, tag, typed = pred
     return [val(host), val(port), val(user), [val(x) for x in idf],
-            [val(x) for x in env], [val(x) for x in ukh] or ['-'], val(tag)]
+            [val(x) for x in env], [val(x) for x in ukh] or ['-'], val(tag),
+            pred_typed(typed)]
 
 
 def dedup(seq):
@@ -236,8 +338,10 @@ def norm(out):
     IdentityFile entries, and repeats SendEnv in its second pass)."""
     if not isinstance(out, list):
         return out
+    typed = {n: (['l'] + dedup(v[1:]) if v and v[0] == 'l' else v)
+             for n, v in out[7].items()}
     return [out[0], out[1], out[2], dedup(out[3]), dedup(out[4]), out[5],
-            out[6]]
+            out[6], typed]
 
 
 # ---- second opinion ----
@@ -249,7 +353,7 @@ _env = re.compile(r'\$\{(.*?)\}')
 def ssh_G(world, target, tag):
     """Resolved values according to `ssh -G` (None if ssh failed)."""
     host, user, mode = target
-    cmd = ['ssh', '-G', '-F', world.main]
+    cmd = ['ssh', '-G', '-F', world.both if world.x else world.main]
     if user:
         cmd += ['-l', user]
     cmd.append(host)
@@ -261,8 +365,10 @@ def ssh_G(world, target, tag):
     if p.returncode != 0:
         return ('fail', p.stderr.decode()[:200])
     d = {'identityfile': [], 'sendenv': []}
+    raw = {}
     for line in p.stdout.decode().splitlines():
         k, _, v = line.partition(' ')
+        raw.setdefault(k, []).append(v)
         if k in ('identityfile', 'sendenv'):
             d[k].append(v)
         elif k in ('hostname', 'user', 'port', 'userknownhostsfile'):
@@ -277,10 +383,78 @@ def ssh_G(world, target, tag):
                    else ENV.get(m.group(2), '?'), v)
         return v
     idf = [expand(v) for v in d['identityfile']
-           if not v.startswith('~/.ssh/id_')]
+           if not v.startswith('~/.ssh/id_') and v.lower() != 'none']
+    ukh = d.get('userknownhostsfile', '').split()
     return [d.get('hostname', host), d.get('port', '22'),
             d.get('user', LOCAL_USER), dedup(idf), dedup(d['sendenv']),
-            d.get('userknownhostsfile', '').split(), '']
+            ['@EMPTY@'] if ukh == ['none'] else ukh, '', ssh_typed(raw)]
+
+
+_UNITS = {'k': 1024, 'm': 1024 ** 2, 'g': 1024 ** 3,
+          's': 1, 'h': 3600, 'd': 86400, 'w': 604800}
+
+
+def _num(text, time=False):
+    if text in ('()', 'None', 'none', 'default'):
+        return '0'
+    t = text.lower()
+    if t[-1] in _UNITS and not (time and t[-1] in 'kg'):
+        mult = 60 if (time and t[-1] == 'm') else _UNITS[t[-1]]
+        return str(int(t[:-1]) * mult)
+    return str(int(t))
+
+
+def ssh_typed(raw):
+    """What `ssh -G` says about the typed options, as name -> value in the
+    specification's vocabulary; only options it prints comparably."""
+    out = {}
+
+    def one(key):
+        return raw[key][0] if key in raw else None
+    for key, name in (('proxyjump', 'ProxyJump'), ('hostkeyalias', 'HostKeyAlias'),
+                      ('bindaddress', 'BindAddress'),
+                      ('identityagent', 'IdentityAgent')):
+        v = one(key)
+        out[name] = None if v is None or v == 'none' else \
+            ['s', '' if v == '""' else v]
+    for key, name in (('compression', 'Compression'),
+                      ('passwordauthentication', 'PasswordAuthentication'),
+                      ('forwardagent', 'ForwardAgent'),
+                      ('requesttty', 'RequestTTY'),
+                      ('canonicalizehostname', 'CanonicalizeHostname')):
+        v = one(key)
+        if v is not None:
+            out[name] = ['b', '1'] if v in ('yes', 'true') else \
+                ['b', '0'] if v in ('no', 'false') else ['s', v]
+    v = one('addressfamily')
+    if v is not None:
+        out['AddressFamily'] = ['e', v]
+    for key, name in (('connecttimeout', 'ConnectTimeout'),
+                      ('serveraliveinterval', 'ServerAliveInterval'),
+                      ('serveralivecountmax', 'ServerAliveCountMax')):
+        v = one(key)
+        out[name] = None if v in (None, 'none') else ['i', v]
+    v = one('rekeylimit')
+    if v is not None:
+        out['RekeyLimit'] = ['r'] + v.split()
+    out['SetEnv'] = (['l'] + raw['setenv']) if 'setenv' in raw else None
+    v = one('globalknownhostsfile')
+    if v is not None:
+        out['GlobalKnownHostsFile'] = ['l'] + ([] if v == 'none' else v.split())
+    certs = [c for c in raw.get('certificatefile', []) if c.lower() != 'none']
+    out['CertificateFile'] = ['l'] + dedup(certs)
+    return out
+
+
+def typed_for_ssh(name, v):
+    """The specification's value as ssh -G would print it."""
+    if v is None:
+        return None
+    if name == 'RekeyLimit':
+        return ['r', _num(v[1]), _num(v[2], time=True)]
+    if name == 'CertificateFile':
+        return ['l'] + dedup(v[1:])
+    return v
 
 
 def ssh_applicable(menu, prog, target):
@@ -295,13 +469,20 @@ def ssh_applicable(menu, prog, target):
     return True
 
 
-def ssh_agrees(sshout, expected, ukh_set):
-    """Compare what ssh -G can tell with the specification's prediction."""
+def ssh_agrees(sshout, expected, ukh_set, names=()):
+    """Compare what ssh -G can tell with the specification's prediction;
+    typed options: only those the program mentions and ssh prints."""
     e = norm(expected)
     ok = sshout[0] == e[0] and sshout[1] == e[1] and sshout[2] == e[2] and \
         sshout[3] == e[3] and sshout[4] == e[4]
     if ukh_set:
         ok = ok and sshout[5] == e[5]
+    for name in names:
+        if name in sshout[7]:
+            want = typed_for_ssh(name, e[7].get(name))
+            if name == 'CertificateFile' and want is None:
+                want = ['l']
+            ok = ok and sshout[7][name] == want
     return ok
 
 
@@ -322,15 +503,16 @@ def _audit(event, args):
 
 
 def srv_load(world, user):
+    """-> (AuthorizedKeysFile outcome, typed option values or None)"""
     try:
-        c = SSHServerConfig.load(None, [world.main], False, False, False,
+        c = SSHServerConfig.load(None, world.paths(), False, False, False,
                                  '127.0.0.1', 22, user, 'ha', '10.0.0.4')
     except asyncssh.IllegalUserName as exc:
-        return ['reject']
+        return ['reject'], None
     except Exception as exc:            # pylint: disable=broad-except
-        return ['exc', type(exc).__name__, str(exc)[:160]]
+        return ['exc', type(exc).__name__, str(exc)[:160]], None
     v = c.get('AuthorizedKeysFile')
-    return ['-'] if v is None else list(v)
+    return (['-'] if v is None else (list(v) or ['@EMPTY@'])), typed_out(c)
 
 
 _host_key = []
@@ -346,7 +528,7 @@ def srv_reload(world, user):
         _host_key.append(asyncssh.generate_private_key('ssh-ed25519'))
     try:
         base = asyncssh.SSHServerConnectionOptions(
-            config=[world.main], server_host_keys=_host_key)
+            config=world.paths(), server_host_keys=_host_key)
     except Exception as exc:            # pylint: disable=broad-except
         return ['base-exc', type(exc).__name__, str(exc)[:160]], []
     del _opened[:]
@@ -363,7 +545,7 @@ def srv_reload(world, user):
         out = ['exc', type(exc).__name__, str(exc)[:160]]
     finally:
         _hook['on'] = False
-    cfgfiles = {world.main, world.inc_a}
+    cfgfiles = {world.main, world.inc_a, world.second}
     seen = [p for p in _opened
             if p not in cfgfiles and not p.startswith(world.globdir) and
             not p.startswith(_BENIGN) and not p.endswith(('.py', '.pyc'))]
